@@ -28,6 +28,14 @@ Next == /\ Len(s) < MaxLen
 
 Theorem == \A k \in 1..3 : LET v == Variants(s)[k] IN RoundTrip(v) /\ NoRawControl(v) /\ LengthLaw(v)
 
+\* T-EscapeRoundTripImpl: the same through the IMPLEMENTATION-shaped front end (Lexer.tla scanners + ParseSel.tla css_unescape, both bound to
+\* the code by token streams / IR): "#" + Escape(v) and "." + Escape(v) lex to one id / class token whose decoded value is v
+P == INSTANCE ParseSel
+OneSimple(k, v) == << [cs |-> << << [k |-> k, v |-> v] >> >>, cb |-> <<>>] >>
+ImplRoundTrip(v) == Len(v) > 0 => /\ P!ParseText(<<35>> \o Escape(v)) = OneSimple("id", NulFix(v))
+                                  /\ P!ParseText(<<46>> \o Escape(v) \o <<32>>) = OneSimple("class", NulFix(v))
+TheoremImpl == \A k \in 1..3 : ImplRoundTrip(Variants(s)[k])
+
 Emit == \/ Len(s) < MinEmit
         \/ PrintT(ToJson([c |-> Variants(s), e |-> [k \in 1..3 |-> Escape(Variants(s)[k])]]))
 =============================================================================
